@@ -86,6 +86,30 @@ Proof.
   - exact (HC HL).
 Qed.
 
+(** 3b. Changing the limit at run time (the [SetMaxConnectionsPerIp] handler as
+    the driver replicates it).  Setting it to any [n > 0] — enabling it from 0,
+    raising it, lowering it — forgets nothing: both maps, hence every count and
+    every held slot, are what they were ([fwd_is_count] holds across the change
+    as for every history), and from then on the gate refuses exactly the tokens
+    that hold no slot for a (cluster, ip) whose count is already [>= n]: a limit
+    enabled with connections open counts them, a lowered limit lets nobody new in
+    until enough have left.  Only 0 wipes the accounting (both maps empty). *)
+Theorem limit_change_keeps_slots :
+  forall (ops : list op) (n : N) (tok : N) (k : key),
+    let st := run_ops init ops in
+    (n <> 0 ->
+     fwd (st_sm (set_limit_op st n)) = fwd (st_sm st) /\
+     rev (st_sm (set_limit_op st n)) = rev (st_sm st) /\
+     at_limit (st_sm (set_limit_op st n)) tok k None =
+       negb (mem k (rev_get tok (rev (st_sm st)))) && (n <=? fwd_get k (fwd (st_sm st)))) /\
+    (fwd (st_sm (set_limit_op st 0)) = [] /\ rev (st_sm (set_limit_op st 0)) = []).
+Proof.
+  intros ops n tok k st. split.
+  - intros H. destruct (set_limit_keeps_slots st n H) as (F & R & _). repeat split; auto.
+    apply gate_after_limit_change. exact H.
+  - apply set_limit_zero_wipes.
+Qed.
+
 (** 4. Accepting resumes: after every history, closing a live connection
     leaves [can_accept = true] as soon as the remaining count is below the
     re-enable threshold [max(1, max*90/100)]; in particular, for every
@@ -256,4 +280,11 @@ Example eviction_nonvacuous :
   let s := q_run (srv_new 2 60 true) [QEnqueue 1; QCreate; QTick 1; QEnqueue 2; QCreate; QTick 1; QTouch 1; QEnqueue 3; QCreate] in
   (* the cap was reached with sessions 1 and 2; 2 is the least recently active: evicted for connection 3 *)
   map s_tok (v_sessions s) = [3; 1] /\ v_served s = [3; 2; 1] /\ v_dropped s = [] /\ v_nb s = 2.
+Proof. vm_compute. repeat split. Qed.
+
+Example limit_change_nonvacuous :
+  let st := run_ops init [ONew 5 0; OAccept 0; OAccept 1; OAccept 2;
+                          OTrack 0 (0, 0) None; OTrack 1 (0, 0) None; OSetLimit 2] in
+  fwd_get (0, 0) (fwd (st_sm st)) = 2 /\
+  at_limit (st_sm st) 2 (0, 0) None = true /\ at_limit (st_sm st) 1 (0, 0) None = false.
 Proof. vm_compute. repeat split. Qed.
